@@ -379,7 +379,7 @@ def run(ctx):
     ctx.rule("C06.check-names", "_check_names (vector.zip, vector.Array): if it returns, the vector part is a complete generic coordinate set of the returned dimension filled from spellings of those coordinates, all other fields carried unchanged, flavor = a synonym was used; otherwise TypeError")
     ctx.rule("C06.numpy-array", "vector.array picks (Momentum|Vector)Numpy{2,3,4}D by the documented rule and the class's __array_finalize__ derives coordinate types from a complete coordinate set or raises")
     ctx.rule("C06.agree", "a name set accepted by vector.obj is accepted with the same dimension and flavor by vector.zip/Array and vector.array")
-    ctx.rule("C06.value-types", "bool and non-numeric values are rejected with TypeError by obj and by all six object classes")
+    ctx.rule("C06.value-types", "bool, str, complex and the NumPy scalars that are not real numbers (bool_, complex128, str_, datetime64) are rejected with TypeError by obj and by all six object classes; int and NumPy float / integer scalars are accepted")
     ctx.rule("C06.value-independence", "no constructor branches on the truth value of a coordinate (a zero must be handled like any other number): decided by interpreting under both assumptions when such a branch is met")
     ctx.rule("C06.record-name", "Array/zip name the record _recname(is_momentum, dimension) from _check_names' own result and zip names with columns in order")
 
@@ -441,7 +441,10 @@ def run(ctx):
 
     # ---- value types
     valid = {2: ("x", "y"), 3: ("rho", "phi", "eta"), 4: ("x", "y", "z", "t")}
-    for kind in ("bool", "str"):
+    # rejected: bool, non-numeric Python values and NumPy scalars that are not real numbers; accepted: Python and NumPy real numbers
+    rejected = ("bool", "str", "complex", "numpy.bool_", "numpy.complex128", "numpy.str_", "numpy.datetime64")
+    accepted = ("int", "numpy.float64", "numpy.float32", "numpy.int64", "numpy.uint8")
+    for kind in rejected + accepted:
         for dim, S in valid.items():
             targets = [("obj", fns["obj"])] + [(f"{fl}Object{dim}D", fns[f"{fl}Object{dim}D"]) for fl in ("Vector", "Momentum")]
             for tname, fn in targets:
@@ -450,9 +453,11 @@ def run(ctx):
                     I = Interp(W)
                     try:
                         r = I.call(fn, [], kw)
-                        ok, msg = False, f"accepts a {kind} value for {bad_name}: built {r!r}"
+                        ok, msg = kind in accepted, f"accepts a {kind} value for {bad_name}: built {r!r}"
                     except PyRaise as e:
-                        ok, msg = e.exc == "TypeError", f"raises {e.exc} instead of TypeError"
+                        ok, msg = kind in rejected and e.exc == "TypeError", (f"raises {e.exc} instead of TypeError" if kind in rejected else f"rejects a {kind} value for {bad_name} ({e.exc})")
+                    except Undecided as e:
+                        raise AnalysisError(f"C06.value-types: {tname} with a {kind} value could not be interpreted: {e}") from None
                     ctx.ob("C06.value-types", f"{tname}({','.join(S)}; {bad_name}:{kind})", ok, msg, None,
                            "src/vector/backends/object.py", sample={"constructor": tname, "bad": bad_name, "kind": kind})
 
@@ -655,7 +660,7 @@ def _coordinate_dtypes_rule(ctx, W):
         ctx.ob("C06.coordinate-dtypes", f"numpy._is_type_safe[{name}]", got is accepted, f"returns {got!r} for a field of dtype {name}; documented: {'accepted' if accepted else 'rejected'}",
                None, "src/vector/backends/numpy.py")
         # awkward: ArrayType -> (ListType | OptionType)* -> RecordType -> [NumpyType(float64), (OptionType ->) NumpyType(name)]
-        for nest in ("flat", "list", "option-field"):
+        for nest in ("flat", "list", "option-field", "option-list", "list-option-record", "regular-list"):
             oa = {}
             f0 = Opaque("nt_float64", "ak_numpytype")
             oa[f0.tag] = {"primitive": "float64"}
@@ -668,9 +673,13 @@ def _coordinate_dtypes_rule(ctx, W):
             rec = Opaque("rec_" + name + nest, "ak_recordtype")
             oa[rec.tag] = {"contents": [f0, second], "fields": ["x", "y"]}
             inner = rec
-            if nest == "list":
-                inner = Opaque("list_" + name, "ak_listtype")
-                oa[inner.tag] = {"content": rec}
+            # wrappers from the record outwards: var * {..}, option[var * {..}] (a None between lists, an event mask), var * ?{..}, N * var * {..}
+            wrappers = {"list": ["ak_listtype"], "option-list": ["ak_listtype", "ak_optiontype"], "list-option-record": ["ak_optiontype", "ak_listtype"],
+                        "regular-list": ["ak_listtype", "ak_regulartype"]}.get(nest, [])
+            for depth, wk in enumerate(wrappers):
+                w_ = Opaque(f"{wk}{depth}_{name}", wk)
+                oa[w_.tag] = {"content": inner}
+                inner = w_
             top = Opaque("arrtype_" + name + nest, "ak_arraytype")
             oa[top.tag] = {"content": inner}
             I = Interp(W, opaque_attrs=oa)
